@@ -27,6 +27,9 @@ Definition U_disc (g : graph) (i : N) (x : N) : Prop :=
 Definition A_node (g : graph) (nm : N) (x : N) : Prop :=
   exists n, In n (by_name g CNode nm) /\
             (U_node g n x \/ exists i, In i (disc_list g (node_interface_list g n)) /\ U_disc g i x).
+(* removing service s through the API: what hangs below it, and what disconnecting its ports may delete *)
+Definition A_ns (g : graph) (s : N) (x : N) : Prop :=
+  U_ns g s x \/ exists i, In i (disc_list g (cpn g s)) /\ U_disc g i x.
 Definition A_comp (g : graph) (n cname : N) (x : N) : Prop :=
   exists c, In c (first_neighbor g n RHas CComp) /\ name_of g c = cname /\
             (U_comp g c x \/ exists i, In i (disc_list g (comp_interface_list g c)) /\ U_disc g i x).
@@ -275,11 +278,24 @@ Proof.
   apply Sound_delete. apply (by_name_sub d). rewrite E. left. reflexivity.
 Qed.
 
+Lemma Sound_remove_ns_disconnecting s : Sound g0 (A_ns g0 s) (remove_ns_disconnecting s).
+Proof.
+  unfold remove_ns_disconnecting. apply Sound_bind_get. intros d.
+  apply Sound_bind'.
+  - apply Inv_for_each_set. intros i. apply Inv_disconnect_peers_of.
+  - apply (Sound_peers_loop _ (fun i => In i (disc_list g0 (cpn g0 s)))).
+    + intros i Hi. apply (disc_list_sub g0 (first_neighbor (restrict g0 d) s RConnects CCP)).
+      * intros y Hy. apply (fn_mono d); [discriminate | exact Hy].
+      * apply (disc_list_mono d); [auto | exact Hi].
+    + intros i x Hi Hx. right. exists i. auto.
+  - intros _. apply (Sound_weaken g0 (U_ns g0 s)); [|apply Sound_remove_ns]. intros x Hx. left. exact Hx.
+Qed.
+
 Lemma Sound_api_remove_ns_topo nm :
-  Sound g0 (fun x => exists s, In s (by_name g0 CNS nm) /\ U_ns g0 s x) (api_remove_ns_topo nm).
+  Sound g0 (fun x => exists s, In s (by_name g0 CNS nm) /\ A_ns g0 s x) (api_remove_ns_topo nm).
 Proof.
   unfold api_remove_ns_topo. apply Sound_get_uniq. intros d n E.
-  apply (Sound_weaken g0 (U_ns g0 n)); [|apply Sound_remove_ns].
+  apply (Sound_weaken g0 (A_ns g0 n)); [|apply Sound_remove_ns_disconnecting].
   intros x Hx. exists n. split; [|exact Hx]. apply (by_name_sub d). rewrite E. left. reflexivity.
 Qed.
 
@@ -315,7 +331,7 @@ Proof.
 Qed.
 
 Lemma Sound_api_node_remove_ns n sname :
-  Sound g0 (fun x => exists s, In s (first_neighbor g0 n RHas CNS) /\ name_of g0 s = sname /\ U_ns g0 s x)
+  Sound g0 (fun x => exists s, In s (first_neighbor g0 n RHas CNS) /\ name_of g0 s = sname /\ A_ns g0 s x)
         (api_node_remove_ns n sname).
 Proof.
   unfold api_node_remove_ns.
@@ -325,7 +341,7 @@ Proof.
   destruct (child_by_name_sub d (first_neighbor (restrict g0 d) n RHas CNS) sname s) as [A B].
   - intros y Hy. apply fn_mono' in Hy; [tauto | discriminate].
   - rewrite E. left. reflexivity.
-  - apply (Sound_weaken g0 (U_ns g0 s)); [|apply Sound_remove_ns].
+  - apply (Sound_weaken g0 (A_ns g0 s)); [|apply Sound_remove_ns_disconnecting].
     intros x Hx. exists s. split; [apply (fn_mono d); [discriminate | exact A]|]. split; [exact B | exact Hx].
 Qed.
 
@@ -382,6 +398,14 @@ Proof.
   - apply (Sound_weaken g0 (U_cp g0 (fst xy) true)); [tauto | apply Sound_remove_cp].
   - apply Sound_bind'; [apply Inv_remove_cp | | intros _; apply Sound_ret].
     apply (Sound_weaken g0 (U_cp g0 (snd xy) true)); [tauto | apply Sound_remove_cp].
+Qed.
+
+Lemma Sound_api_unpeer_checked xy ca cb :
+  Sound g0 (fun x => U_cp g0 (fst xy) true x \/ U_cp g0 (snd xy) true x) (api_unpeer_checked xy ca cb).
+Proof.
+  unfold api_unpeer_checked.
+  apply Sound_bind'; [apply Inv_get | apply Sound_get | intros ok].
+  apply Sound_bind'; [apply Inv_guard | apply Sound_guard | intros _]. apply Sound_api_unpeer_with.
 Qed.
 
 End Sound.
